@@ -76,7 +76,7 @@ pub fn twoway_abstract<const NMAX: usize, const HMAX: usize>(nmin: usize) {
     kani::cover!(skips > (1u32 << 30), "huge skip count (the C14 overflow regime)");
 }
 
-inst!(tw_abstract_3_6, [props=C03+C10+C14 tier=quick cfg=x86std t=1800 role=twoway-abstract-prefilter uw=@TW:3:6;twoway_abstract:9;oracle:5], 3, twoway_abstract::<3, 6>(2));
+inst!(tw_abstract_3_6, [props=C03+C10+C14+C08+C09+C16 tier=quick cfg=x86std t=1800 role=twoway-abstract-prefilter uw=@TW:3:6;twoway_abstract:9;oracle:5], 3, twoway_abstract::<3, 6>(2));
 inst!(tw_abstract_2_4_state, [props=C14+C10 tier=quick cfg=x86std t=900 role=prefilter-state-arithmetic uw=@TW:2:4;twoway_abstract:7;oracle:4], 3, twoway_abstract::<2, 4>(2));
 inst!(tw_abstract_3_7, [props=C03+C10 xprops=C14 tier=thorough cfg=x86std t=3600 role=twoway-abstract-prefilter uw=@TW:3:7;twoway_abstract:10;oracle:5], 3, twoway_abstract::<3, 7>(3));
 inst!(tw_abstract_4_8, [props=C03+C10 xprops=C14 tier=thorough cfg=x86std t=7200 role=twoway-abstract-prefilter uw=@TW:4:8;twoway_abstract:11;oracle:6], 3, twoway_abstract::<4, 8>(4));
@@ -566,7 +566,7 @@ pub mod panics {
     /// Below min_haystack_len every path must panic (the harness is a
     /// *witness*: it must fail with the documented message and the trailing
     /// assertion must stay unreachable); at or above it nothing may fail.
-    pub fn below_min<const NLEN: usize, const HCAP: usize>(isa: u8, prefilter: bool) {
+    pub fn below_min<const NLEN: usize, const HCAP: usize>(isa: u8, prefilter: bool, at_least_needle: bool) {
         let nb: [u8; NLEN] = kani::any();
         let nz1 = [0u8; 1];
         let n = crate::substr::nz(&nb, &nz1);
@@ -596,13 +596,13 @@ pub mod panics {
 }
 
 #[cfg(any(vcfg_x86std, vcfg_x86none, vcfg_x86alloc, vcfg_x86avx2, vcfg_x86rel))]
-inst!(panic_below_min_sse2_find, [props=C14+C05 tier=quick cfg=x86std+x86rel t=900 role=documented-panic-exactness expect=failat:arch/generic/packedpair.rs], 6, panics::below_min::<3, 20>(0, false));
+inst!(panic_below_min_sse2_find, [props=C14+C05 tier=quick cfg=x86std+x86rel t=900 role=documented-panic-exactness expect=failat:arch/generic/packedpair.rs], 6, panics::below_min::<3, 20>(0, false, false));
 #[cfg(any(vcfg_x86std, vcfg_x86none, vcfg_x86alloc, vcfg_x86avx2, vcfg_x86rel))]
-inst!(panic_below_min_sse2_pre, [props=C14+C05 tier=quick cfg=x86std+x86rel t=900 role=documented-panic-exactness expect=failat:arch/generic/packedpair.rs], 6, panics::below_min::<3, 20>(0, true));
+inst!(panic_below_min_sse2_pre, [props=C14+C05 tier=quick cfg=x86std+x86rel t=900 role=documented-panic-exactness expect=failat:arch/generic/packedpair.rs], 6, panics::below_min::<3, 20>(0, true, false));
 #[cfg(any(vcfg_x86std, vcfg_x86none, vcfg_x86alloc, vcfg_x86avx2, vcfg_x86rel))]
-inst!(panic_below_min_avx2_find, [props=C14+C05 tier=quick cfg=x86std+x86rel t=900 role=documented-panic-exactness expect=failat:arch/generic/packedpair.rs], 6, panics::below_min::<3, 20>(1, false));
+inst!(panic_below_min_avx2_find, [props=C14+C05 tier=quick cfg=x86std+x86rel t=900 role=documented-panic-exactness expect=failat:arch/generic/packedpair.rs], 6, panics::below_min::<3, 20>(1, false, false));
 #[cfg(any(vcfg_x86std, vcfg_x86none, vcfg_x86alloc, vcfg_x86avx2, vcfg_x86rel))]
-inst!(panic_below_min_g4_pre, [props=C14+C05 tier=quick cfg=x86std+x86rel t=900 role=documented-panic-exactness expect=failat:arch/generic/packedpair.rs], 6, panics::below_min::<3, 8>(2, true));
+inst!(panic_below_min_g4_pre, [props=C14+C05 tier=quick cfg=x86std+x86rel t=900 role=documented-panic-exactness expect=failat:arch/generic/packedpair.rs], 6, panics::below_min::<3, 8>(2, true, false));
 
 // ---------------------------------------------------------------------------
 // C05: safe calls whose needle differs from the construction needle. Only
@@ -701,3 +701,10 @@ inst!(pur_owned_fwd_n2, [props=C16 xprops=C14 tier=quick cfg=x86std t=1500 role=
 inst!(pur_clone_fwd_n2, [props=C16 xprops=C14 tier=thorough cfg=x86std t=1500 role=finder-clone uw=@RK;@TWNEW;@TWOFF;with_ranker:6;oracle:6;@PP;clone:6;from:6], 3, purity::copies::<2, 3>(1, false, 3));
 #[cfg(not(vcfg_x86none))]
 inst!(pur_clone_rev_n2, [props=C16 xprops=C14 tier=thorough cfg=x86std t=1500 role=finder-clone uw=@RK;@TWNEW;@TWOFF;with_ranker:6;oracle:6;@PP;clone:6;from:6], 3, purity::copies::<2, 4>(1, true, 1));
+
+#[cfg(any(vcfg_x86std, vcfg_x86none, vcfg_x86alloc, vcfg_x86avx2, vcfg_x86rel))]
+inst!(below_min_reads_sse2_find, [props=C05 tier=quick cfg=x86rel t=900 role=no-read-below-min-haystack-len expect=failat:arch/generic/packedpair.rs], 6, panics::below_min::<3, 20>(0, false, true));
+#[cfg(any(vcfg_x86std, vcfg_x86none, vcfg_x86alloc, vcfg_x86avx2, vcfg_x86rel))]
+inst!(below_min_reads_sse2_pre, [props=C05 tier=quick cfg=x86rel t=900 role=no-read-below-min-haystack-len expect=failat:arch/generic/packedpair.rs], 6, panics::below_min::<3, 20>(0, true, true));
+#[cfg(any(vcfg_x86std, vcfg_x86none, vcfg_x86alloc, vcfg_x86avx2, vcfg_x86rel))]
+inst!(below_min_reads_avx2_pre, [props=C05 tier=quick cfg=x86rel t=900 role=no-read-below-min-haystack-len expect=failat:arch/generic/packedpair.rs], 6, panics::below_min::<3, 20>(1, true, true));
